@@ -47,6 +47,8 @@ def main():
         # ---- steps 1-2: proofs
         try:
             coq_info = vlib.coq_side(pid, allow=spec.get("allow_axioms", ()))
+            if tier == "thorough":
+                coq_info.update(vlib.coqchk_props(pid))
         except BrokenProof as e:
             broken = ("proof", str(e))
         # ---- step 3: build the implementation + harness from /repo's current working tree
@@ -90,6 +92,8 @@ def main():
                     "property_theorems": coq_info["theorems"], "print_assumptions_results": coq_info["print_assumptions"],
                     "closed_under_global_context": coq_info["closed"], "axioms_reported": coq_info["axioms"],
                     "statements_pinned_by_Check": coq_info["checks_pinned"], "dependency_cone": coq_info["cone"]})
+        if "coqchk_axioms" in coq_info:
+            cov.update({"coqchk_axioms_in_closure": coq_info["coqchk_axioms"], "coqchk_seconds": coq_info["coqchk_seconds"]})
     else:
         cov.update({"obligations": 1, "discharged": 0})
     cov.setdefault("evaluations", 0)
